@@ -60,7 +60,7 @@ class MockTurtle(MockModule):
             return self.module_name
 
         if key == '__all__':
-            return self.FIELDS
+            return list(self.FIELDS)
 
         def _fake_call_wrapper(*args, **kwargs):
             self.calls.append((key, args, kwargs))
